@@ -120,9 +120,10 @@ func runC05(c *Ctx) {
 	}
 	// monitor passes its own parameters through unchanged
 	for _, sf := range k.storeFns {
-		for _, ci := range callsToFn(k.monitor, sf) {
+		for _, ci := range callsToFn(k.frame().fn, sf) {
 			okp := true
 			for _, a := range ci.Common().Args[1:] {
+				a = k.frame().toMonitor(a)
 				switch a.Type().Underlying().(type) {
 				case *types.Slice:
 					if p, ok := a.(*ssa.Parameter); !ok || p.Parent() != k.monitor {
@@ -555,8 +556,8 @@ func c05Serial(c *Ctx, k *core) {
 			c.check(hit == nil, "serial-plus-one", name, sc.Pos(), "stored serial = serial loaded in this function (no store in between) + 1", "another store lies between the serial load and this store")
 		}
 	}
-	// the event serial in the monitor
-	f := k.monitor
+	// the event serial in the monitor (or the helper it delegates the install to)
+	f := k.frame().fn
 	for _, i := range allInstrs(f) {
 		al, ok := i.(*ssa.Alloc)
 		if !ok || litTypeName(al) != ".newConfigEvent" {
